@@ -4,8 +4,10 @@ use crate::report::{RunReport, Violation};
 use serde_json::Value;
 
 pub mod c01;
+pub mod c03;
 pub mod c04;
 pub mod c06;
+pub mod c13;
 pub mod c14;
 pub mod c15;
 pub mod c18;
@@ -72,9 +74,11 @@ pub trait Prop: Sync {
 pub fn lookup(id: &str) -> Option<Box<dyn Prop>> {
     match id {
         "C01" => Some(Box::new(c01::C01)),
+        "C03" => Some(Box::new(c03::C03)),
         "C04" => Some(Box::new(c04::C04)),
         "C05" => Some(Box::new(c01::C05)),
         "C06" => Some(Box::new(c06::C06)),
+        "C13" => Some(Box::new(c13::C13)),
         "C14" => Some(Box::new(c14::C14)),
         "C15" => Some(Box::new(c15::C15)),
         "C18" => Some(Box::new(c18::C18)),
